@@ -37,6 +37,8 @@ Clauses(t) ==
      <<"order",          "P", OrderOK(Ord(t), names, t.req, t.cps)>>,
      <<"order-model",    "M", Ord(t) = MakeOrder(names, t.req, t.cps)>>,
      <<"numGlyphs",      "P", t.ret.maxp.numGlyphs = Len(Ord(t))>>,
+     \* the stored glyph data of a 'CFF ' table declares every advance itself: it is the metrics table's
+     <<"cff-width-equals-advance", "P", Has(t.ret, "cffAdv") => \A n \in DOMAIN t.ret.cffAdv : t.ret.cffAdv[n] = t.ret.adv[n]>>,
      \* every glyph-derived maxp count equals the same count taken over the stored glyf data (points, contours, composite
      \* points / contours, component elements / depth, largest glyph program)
      <<"maxp-matches-glyph-data", "P", Has(t.ret, "maxpTable") => t.ret.maxpTable = t.ret.maxpStored>>,
